@@ -159,7 +159,7 @@ def build_harness(timeout=1800):
     if not os.path.exists(lock_dst):
         shutil.copy(lock_src, lock_dst)
     t0 = time.time()
-    rc, out = sh("cargo build --offline 2>&1", cwd=hdir, timeout=timeout)
+    rc, out = sh("cargo build --offline --target-dir %s 2>&1" % os.path.join(CACHE, "target"), cwd=hdir, timeout=timeout)
     if rc != 0:
         raise TieBroken("harness-build", out[-3000:])
     return os.path.join(CACHE, "target", "debug", "h1"), time.time() - t0
@@ -224,7 +224,7 @@ dashmap = { path = "../harness/vendor/dashmap" }
     lock_dst = os.path.join(hdir, "Cargo.lock")
     if not os.path.exists(lock_dst):
         shutil.copy(os.path.join(REPO, "Cargo.lock"), lock_dst)
-    rc, out = sh("cargo build --offline 2>&1", cwd=hdir, timeout=timeout)
+    rc, out = sh("cargo build --offline --target-dir %s 2>&1" % os.path.join(CACHE, "target"), cwd=hdir, timeout=timeout)
     if rc != 0:
         raise TieBroken("h4-build", out[-3000:])
     d = os.path.join(CACHE, "target_h4", "debug")
